@@ -57,6 +57,15 @@ var c11Regression = []regCase{
 	{Name: "F38-url-tags-without-parameter", Source: "JSIGHT 0.3\nTAG @g\nURL /a\n  Tags\n  GET\n    Tags @g\n    200 any\n", Expect: "reject"},
 }
 
+var c01Regression = []regCase{
+	{Name: "F39-path-body-is-regex-type", Source: "JSIGHT 0.3\nTYPE @a regex\n/abc/\nGET /x/{id}\n  Path\n  @a\n", Expect: "reject"},
+}
+
+var c19Regression = []regCase{
+	{Name: "F40-tags-names-automatic-tag", Source: "JSIGHT 0.3\nGET /cats\n  200 any\nGET /dogs\n  Tags @cats\n  200 any\n", Expect: "reject"},
+	{Name: "declared-tag-named-like-path", Source: "JSIGHT 0.3\nTAG @cats\nGET /cats\n  200 any\nGET /dogs\n  Tags @cats\n  200 any\n", Expect: "accept"},
+}
+
 var c04Regression = []regCase{
 	{Name: "F25-enum-and-forward-type-reference", Source: "JSIGHT 0.3\nENUM @e\n[1]\nTYPE @a\n{\"x\": @b}\nTYPE @b\n{}\n", Expect: "accept"},
 	{Name: "F15-enum-used-in-later-referenced-type", Source: "JSIGHT 0.3\nTYPE @a\n{\"x\": @b}\nTYPE @b\n{\n  \"y\": 1 // {enum: @e}\n}\nENUM @e\n[1, 2]\n", Expect: "accept"},
